@@ -82,3 +82,12 @@ func ThreadName() string {
 func sortEvents(ev []Event) {
 	sort.Slice(ev, func(i, j int) bool { return ev[i].Seq < ev[j].Seq })
 }
+
+// AddEvaluations counts inputs enumerated inside one execution (pure-function sweeps).
+//
+//go:norace
+func AddEvaluations(n int) {
+	if x := curX; x != nil {
+		x.evals += int64(n)
+	}
+}
